@@ -1,6 +1,7 @@
 // bzkit CLI:
 //   bzkit inspect FILE [--out OUTFILE] [--lens] [--freq]   -> JSON verdict + field map on stdout
 #include "bzkit.hpp"
+#include "bzgen.hpp"
 
 #include <fstream>
 #include <iostream>
@@ -112,6 +113,36 @@ char *bzk_inspect_json(const uint8_t *data, size_t n, int lens, int freq, uint8_
   return js;
 }
 void bzk_free(void *p) { free(p); }
+
+// generator: tape -> file.  Returns malloc'ed JSON {"defect":..,"labels":{..},"note":..}; *bytes/*plain are malloc'ed.
+char *bzk_gen(const uint8_t *tape, size_t n, int max_block, int allow_big, int defect, uint8_t **bytes, size_t *blen,
+              uint8_t **plain, size_t *plen) {
+  gen::GenOptions o;
+  o.max_block = max_block;
+  o.allow_big = allow_big != 0;
+  o.defect = defect;
+  gen::GenResult R = gen::generate(tape, n, o);
+  std::ostringstream js;
+  js << "{\"defect\":" << jstr(gen::defect_name(R.defect)) << ",\"note\":" << jstr(R.note) << ",\"labels\":{";
+  bool first = true;
+  for (auto &kv : R.labels) {
+    js << (first ? "" : ",") << jstr(kv.first) << ":" << kv.second;
+    first = false;
+  }
+  js << "}}";
+  std::string s = js.str();
+  char *r = (char *)malloc(s.size() + 1);
+  memcpy(r, s.c_str(), s.size() + 1);
+  *bytes = (uint8_t *)malloc(R.bytes.size() + 1);
+  memcpy(*bytes, R.bytes.data(), R.bytes.size());
+  *blen = R.bytes.size();
+  *plain = (uint8_t *)malloc(R.plain.size() + 1);
+  memcpy(*plain, R.plain.data(), R.plain.size());
+  *plen = R.plain.size();
+  return r;
+}
+int bzk_gen_ndefects(void) { return gen::D_COUNT; }
+const char *bzk_gen_defect_name(int d) { return gen::defect_name(d); }
 }
 
 #ifndef BZKIT_NO_MAIN
